@@ -1,15 +1,16 @@
 \* C17 quick: 8 registrable paths (prefix-sharing siblings a/aa, b/bb, depth 3, non-ASCII),
-\* 14 lookup modules, 4 levels, every sequence of <= 3 registrations / default settings.
+\* 20 lookup modules (with byte-prefix / character-prefix siblings for is_child_of), 4 levels, every sequence of <= 3 registrations / default settings.
 SPECIFICATION Spec
 CONSTANTS
     SegName <- MC_SegName
+    SegChars <- MC_SegChars
     RegPaths <- MC_RegPaths
     Modules <- MC_Modules
     Levels = {1, 2, 3, 4}
     MaxOps = 3
     Emit = TRUE
 VIEW view
-INVARIANTS TypeOK ChildrenSorted TrieRefinesMap
+INVARIANTS TypeOK ChildrenSorted TrieRefinesMap MapMatchesByIsChildOf
 PROPERTY RegisterLocal
 ACTION_CONSTRAINT EmitReplay
 CHECK_DEADLOCK FALSE
